@@ -741,6 +741,49 @@ pub fn run() {
       }
     });
   }
+  // a name introduced by the expression that is spelled like a built-in function, bound to a function and invoked: the
+  // innermost binding is the introduced one, in the function position of an invocation too (positional and named)
+  {
+    let built_ins = ["sum", "max", "min", "count", "abs", "floor", "not", "string length", "append", "contains", "date", "number", "list contains", "mean"];
+    let templates = [
+      "{B: function(p, q) p * 100 + q, m: B(2, 3)}.m",
+      "{B: function(p, q) p * 100 + q, m: B(q: 3, p: 2)}.m",
+      "{B: function(p, q) p * 100 + q, m: [B(2, 3), B(4, 5)]}.m",
+      "{B: function(p, q) p * 100 + q, m: for i in [1, 2] return B(i, 3)}.m",
+      "(function(B) B(2, 3))(function(p, q) p * 100 + q)",
+      "for B in [function(p, q) p * 100 + q] return B(2, 3)",
+      "some B in [function(p, q) p * 100 + q] satisfies B(2, 3) = 203",
+      "{B: function(p) p * 100, m: B(2)}.m",
+      "{B: function(p) p * 100, m: B([2][1])}.m",
+    ];
+    for b in built_ins {
+      for t in templates {
+        cnt.cases.fetch_add(1, Ordering::Relaxed);
+        let text = t.replace('B', b);
+        let expected_text = t.replace('B', "zq");
+        let expected = match evaluate_meaning(&expected_text) {
+          Ok(v) => v,
+          Err(_) => {
+            cnt.skipped.fetch_add(1, Ordering::Relaxed);
+            continue;
+          }
+        };
+        let observed = evaluate_in(&Scope::default(), &text);
+        cnt.compared.fetch_add(1, Ordering::Relaxed);
+        if !matches!(expected, Value::Null(_)) {
+          cnt.nontrivial.fetch_add(1, Ordering::Relaxed);
+        }
+        let ok = matches!(&observed, Ok(v) if v.to_string() == expected.to_string());
+        if !ok {
+          run.violation(
+            &format!("binder-spelled-like-a-built-in-invoked:{}:`{}`", b, t),
+            &format!("`{}` evaluates to {} but with the introduced name renamed, `{}`, it evaluates to {}", text, observed.as_ref().map(show_value).unwrap_or_else(|e| e.chars().take(120).collect()), expected_text, show_value(&expected)),
+            json!({"engine":"c10","text":text,"bindings":[],"expected":show_value(&expected)}),
+          );
+        }
+      }
+    }
+  }
   run.sample(json!({"bound_names":["a","b","a-b"],"text":"a - b","meaning":"(5)","rule":"longest bound name wins"}));
   run.sample(json!({"bound_names":["a","b"],"text":"a - b","meaning":"(2) - (3)"}));
   run.sample(json!({"text":"for a b in [1, 2, 3] return a b * 2","meaning":"for zq in [1, 2, 3] return zq * 2"}));
